@@ -173,6 +173,12 @@ def run(ctx):
                     f = PC.mutate(rng, pool[rng.randrange(len(pool))])
                 elif r < 0.8:
                     f = b''
+                elif r < 0.9 and dlt == 1:
+                    # 802.3 frames (length field below 0x0600) whose LLC / STP body is cut short or ill-formed: they do not parse
+                    # and must be skipped, not handed out as something else
+                    body = rng.choice([b'', b'\x42', b'\x42\x42', b'\x42\x42\x03', b'\x42\x42\x03\x00\x00\x00', b'\xaa\xaa\x03\x00', b'\x42\x42\x01', b'\x00\x00\x00'])
+                    body += bytes(rng.randrange(256) for _ in range(rng.choice([0, 0, 1, 2, 5])))
+                    f = bytes(rng.randrange(256) for _ in range(12)) + struct.pack('>H', rng.choice([len(body), 3, 0x26, 0x05dc, 0x0100])) + body
                 else:
                     f = bytes(rng.randrange(256) for _ in range(rng.choice([1, 2, 3, 4, 8, 13, 14, 20, 60, 300])))
                 frames.append(f)
